@@ -373,6 +373,31 @@ fn timed_histories(max_len: usize) -> Vec<Vec<TOp>> {
     out
 }
 
+/// Histories with up to three sleeps and refused attempts in between (one kind of attempt per history): a limiter that
+/// re-credits elapsed time on refused attempts only shows with several refusals separated by real time.
+fn timed_histories_multi(max_len: usize) -> Vec<Vec<TOp>> {
+    let mut out: Vec<Vec<TOp>> = Vec::new();
+    for x in [TOp::K(1), TOp::G] {
+        let mut level: Vec<Vec<TOp>> = vec![vec![x]];
+        for _ in 1..max_len {
+            let mut next = Vec::new();
+            for h in &level {
+                for a in [x, TOp::Sleep] {
+                    if a == TOp::Sleep && (*h.last().unwrap() == TOp::Sleep || h.iter().filter(|o| **o == TOp::Sleep).count() >= 3) {
+                        continue;
+                    }
+                    let mut h2 = h.clone();
+                    h2.push(a);
+                    next.push(h2);
+                }
+            }
+            out.extend(next.iter().filter(|h| h.iter().filter(|o| **o == TOp::Sleep).count() >= 2 && *h.last().unwrap() != TOp::Sleep).cloned());
+            level = next;
+        }
+    }
+    out
+}
+
 /// Token interval per bucket: real tokens are within [lo, hi] given measured time bounds.
 #[derive(Clone, Copy)]
 struct TBucket {
@@ -488,13 +513,20 @@ fn part1(run: &Run, cx: &Ctx, loom_slot: &std::sync::Mutex<Option<loom_child::Lo
         (EngineConfig { window: Duration::from_secs(60), max_requests: 6, burst_size: 2 }, Duration::from_millis(1200)),
         (EngineConfig { window: Duration::from_millis(400), max_requests: 2, burst_size: 3 }, Duration::from_millis(600)),
     ];
-    let th = timed_histories(run.tier.pick(3, 5));
-    let timed_jobs: Vec<(usize, usize)> = (0..timed_cfgs.len()).flat_map(|c| (0..th.len()).map(move |i| (c, i))).collect();
+    let mut th = timed_histories(run.tier.pick(3, 5));
+    let single_sleep = th.len();
+    // multi-sleep family: burst 1, one token per second, attempts every 350 ms
+    let multi = timed_histories_multi(run.tier.pick(7, 9));
+    th.extend(multi.iter().cloned());
+    let multi_cfg = (EngineConfig { window: Duration::from_secs(4), max_requests: 4, burst_size: 1 }, Duration::from_millis(350));
+    let mut timed_jobs: Vec<(usize, usize)> = (0..timed_cfgs.len()).flat_map(|c| (0..single_sleep).map(move |i| (c, i))).collect();
+    timed_jobs.extend((single_sleep..th.len()).map(|i| (usize::MAX, i)));
     let timed_done = AtomicU64::new(0);
     // sleeping jobs: more workers than cores is fine, but par_for is bounded by n_workers(); run it as is
     par_for(timed_jobs.len(), |j| {
         let (c, i) = timed_jobs[j];
-        if let Err(msg) = catch(|| run_timed(&cx, &timed_cfgs[c].0, timed_cfgs[c].1, &th[i])) {
+        let (tcfg, tsleep) = if c == usize::MAX { (&multi_cfg.0, multi_cfg.1) } else { (&timed_cfgs[c].0, timed_cfgs[c].1) };
+        if let Err(msg) = catch(|| run_timed(&cx, tcfg, tsleep, &th[i])) {
             run.violation_lazy("C14.nopanic", feats(&[("entry", "rate_limit::Engine::try_consume_*".into())]), || (json!({"timed_history": format!("{:?}", th[i]), "panic": msg}), format!("Engine panicked: {msg}")));
         }
         timed_done.fetch_add(1, Ordering::Relaxed);
